@@ -244,10 +244,16 @@ def check(res, tr, timers, resolved):
                     break
     bounds.sort()
 
+    call_idx = [(i, ev[1]) for i, ev in enumerate(log) if ev[0] == "produce_call"]
+
     def burst_of(a_):
         i_ = a_["first"]["idx"]
+        if call_idx:
+            # the client call the frame belongs to: the last one made before it was written (a call's requests may
+            # be written long after the call, once a connection comes up, and other producer timers may expire in
+            # between - a partition lookup being retried - without a new call being made)
+            return sum(1 for (ci, _t) in call_idx if ci <= i_)
         return sum(1 for b_ in bounds if b_ <= i_)
-    call_idx = [(i, ev[1]) for i, ev in enumerate(log) if ev[0] == "produce_call"]
 
     def call_time(a_):
         """When the producer made the client call this request belongs to: the earliest moment the client's timeout
